@@ -94,6 +94,7 @@ def run(ctx):
     rig = Rig()
     recs, meta = [], []
     unbuildable = set()
+    broken = []
     try:
         for c, l in sel:
             base = bytes(1024)
@@ -122,7 +123,45 @@ def run(ctx):
                 for k in rng.sample(outs, rng.randrange(1, min(len(outs), 5) + 1)):
                     w[k] = rng.randrange(len(st.accessors[k].items))
                 wirings.append(w)
-            for w in wirings:
+            # accessories that have a user demand but no automation class (L120, Fb, TvLift ...): alone,
+            # and two or three of them wired at once, next to ordinary devices
+            classless = [d for d in st.all_devices if d not in C.DEVICES and
+                         any(ud.upper() == f"UD{d}".upper() for ud in st.user_demands)]
+            offers = {}                  # device -> [(output, label index)]
+            for k in outs:
+                for i, lab in enumerate(st.accessors[k].items or []):
+                    for d in classless:
+                        if lab.startswith(d):
+                            offers.setdefault(d, []).append((k, i))
+            combos = []
+            ds = sorted(offers)
+            for i1 in range(len(ds)):
+                combos.append([ds[i1]])
+                for i2 in range(i1 + 1, len(ds)):
+                    combos.append([ds[i1], ds[i2]])
+                    for i3 in range(i2 + 1, len(ds)):
+                        combos.append([ds[i1], ds[i2], ds[i3]])
+            for combo in combos:
+                for _ in range(2 if ctx.quick else 6):
+                    w, used = {}, set()
+                    for d in combo:
+                        cands = [(k, i) for (k, i) in offers[d] if k not in used]
+                        if not cands:
+                            w = None
+                            break
+                        k, i = rng.choice(cands)
+                        used.add(k)
+                        w[k] = i
+                    if not w:
+                        continue
+                    for k in rng.sample(outs, min(2, len(outs))):
+                        w.setdefault(k, rng.randrange(len(st.accessors[k].items)))
+                    wirings.append(w)
+            wirings.insert(0, {})          # nothing wired: a platform whose facade cannot be built at all (C11/D6) is skipped
+            pair_ok = True
+            for wi, w in enumerate(wirings):
+                if not pair_ok:
+                    break
                 st.set_status_block(base)
                 ok = True
                 for k in outs:
@@ -143,12 +182,19 @@ def run(ctx):
                             recs.append(record(rig, st, labels, known, sensor_defs, which))
                         meta.append((f"{c['name']}+{l['name']}", {k: st.accessors[k].value for k in w}))
                     except Exception as e:  # noqa
-                        unbuildable.add((c["platform"], type(e).__name__))
+                        if wi == 0:
+                            unbuildable.add((c["platform"], type(e).__name__))
+                            pair_ok = False
+                        else:
+                            # the facade exists for this table pair, but not for this wiring
+                            broken.append((f"{c['name']}+{l['name']}", {k: st.accessors[k].value for k in w}, which, type(e).__name__))
                         break
     finally:
         rig.close()
     if not recs:
         raise env.MachineryError("no facade could be built")
+    for (name, w, which, exc) in broken:
+        ctx.violation({"clause": "no-inventory-for-this-wiring", "facade": which, "exc": exc}, {"where": name, "wiring": w})
     bad, n = tlc.judge("C12_Judge", recs, "c12", chunk=1500, jobs=12)
     for idx, why in bad:
         name, w = meta[idx]
